@@ -383,6 +383,13 @@ fn check_server(s: &Srv, out: &mut Out, which: &str) {
             out.add("C12", s, format!("two interleaved downloads (3000-byte hello.bin and 5-byte sub/inner.txt from two endpoints): the first endpoint received {} bytes ({}), the second {} bytes ({})",
                 sa.2.len(), if sa.2 == want_a { "correct" } else { "WRONG" }, sb.2.len(), if sb.2 == want_b { "correct" } else { "WRONG" }));
         }
+        // an endpoint whose transfer has ended owns no transfer any more: a stray ACK from it is answered with ERROR 4
+        std::thread::sleep(Duration::from_millis(80));
+        b.send_to(&Packet::Ack(1).serialize().unwrap(), s.addr).unwrap();
+        let r = recv(&b);
+        if !is_error(&r, ErrorCode::IllegalOperation, s.addr) {
+            out.add("C12", s, format!("ACK 1 sent to the listening port by an endpoint whose download had already completed was answered with {:?} instead of ERROR 4", r.map(|x| verif_replay::fmt_packet(&x.0))));
+        }
         // the same endpoint asks again after its transfer has ended
         let mut sb2 = (None, 0u16, Vec::new(), false);
         b.send_to(&rrq("sub/inner.txt", vec![]), s.addr).unwrap();
@@ -434,6 +441,22 @@ fn check_server(s: &Srv, out: &mut Out, which: &str) {
                     hostile.push((format!("{} long name of {width}-byte characters, lead {lead}, prefix {prefix:?}", if kind == 1 { "RRQ" } else { "WRQ" }), [&[0u8, kind][..], name.as_bytes(), b"\0octet\0"].concat()));
                 }
             }
+        }
+    }
+    {
+        // history: an accepted request with the smallest block size, then an ordinary request (single-port servers share one receive buffer)
+        let h = client();
+        h.send_to(&rrq("hello.bin", vec![opt(OptionType::BlockSize, 8)]), s.addr).unwrap();
+        if let Some((Packet::Oack(_), from)) = recv(&h) {
+            let _ = h.send_to(&Packet::Ack(0).serialize().unwrap(), from);
+            let _ = recv(&h);
+            let _ = h.send_to(&Packet::Error { code: ErrorCode::NotDefined, msg: "stop".into() }.serialize().unwrap(), from);
+        }
+        let c = client();
+        c.send_to(&rrq("sub/inner.txt", vec![]), s.addr).unwrap();
+        match recv(&c) {
+            Some((Packet::Data { block_num: 1, data }, _)) if data == b"inner" => {}
+            other => out.add("C05", s, format!("after a valid RRQ with blksize=8 had been accepted, the server no longer serves a plain valid request (got {:?})", other.map(|x| verif_replay::fmt_packet(&x.0)))),
         }
     }
     for (what, bytes) in hostile {
